@@ -5,7 +5,7 @@ import ast
 from ..report import rule
 from .. import norm, cfg as cfgmod, guards
 from ..model import AnalysisError
-from .common import find_calls, bind_args, returns_of
+from .common import bound_arg, find_calls, bind_args, returns_of
 
 
 @rule("C03", "R1", "K11", "the reader's segment list is exactly the TOC's: nothing flows from `reuse` into it",
@@ -65,8 +65,8 @@ def c03_r1(ctx):
     gens = []
     for c in norm.calls_in(f.node, include_nested_defs=True):
         if norm.call_name(c) in ("SegmentReader", "MultiReader"):
-            kw = [k for k in c.keywords if k.arg == "generation"]
-            gens.append((norm.call_name(c), norm.canon(kw[0].value) if kw else None))
+            g_ = bound_arg(prog, f, c, "generation")
+            gens.append((norm.call_name(c), norm.canon(g_) if g_ is not None else None))
     ctx.ob(f, len(gens) >= 2 and all(g == "generation" for _, g in gens),
            "the TOC generation is handed to every reader constructed", detail=str(gens))
     # FileIndex.reader: one TOC read feeds all three arguments
